@@ -46,6 +46,7 @@ class Report:
         self.trusted = []
         self.known = [k for k in load_known() if k['property'] == pid]
         self.broken = []
+        self.known_rules = {}
 
     # -- bookkeeping
     def fn(self, name):
@@ -64,15 +65,17 @@ class Report:
 
     def fail(self, rule, site, where, expected, found, function=None):
         """site: stable identifier of the rule instance (function / kernel family / dim / slot); where: file:line"""
-        self.obligations += 1
-        r = self.rules.setdefault(rule, [0, 0])
-        r[0] += 1
         v = {'property': self.pid, 'rule': rule, 'site': site, 'where': where, 'function': function,
              'expected': expected, 'found': found}
         for k in self.known:
             if k['rule'] == rule and k['site'] == site:
+                # a listed known finding: reported, not claimed as an obligation of this run
                 self.known_hits.append((k, v))
+                self.known_rules[rule] = self.known_rules.get(rule, 0) + 1
                 return
+        self.obligations += 1
+        r = self.rules.setdefault(rule, [0, 0])
+        r[0] += 1
         self.violations.append(v)
 
     def floor(self, rule, count, minimum):
@@ -107,6 +110,7 @@ class Report:
             'n_functions_analysed': len(self.analysed['functions']),
             'declined_clauses': self.declined,
             'known_findings_hit': [{'rule': k['rule'], 'site': k['site']} for k, _ in self.known_hits],
+            'known_finding_instances_not_claimed': self.known_rules,
             'notes': self.notes,
         }
         if extra:
